@@ -11,6 +11,8 @@ import EaselModel.Gencode.TableFacts3
 import EaselModel.Gencode.TableFacts4
 import EaselModel.Gencode.Extras
 import EaselModel.Gencode.ReadTotal
+import EaselModel.Gencode.WriteTotal
+import EaselModel.Gencode.ReadCode
 import EaselModel.Alphabet.Iupac
 /-! # C17 — property theorems (statements + glue only; lemmas live in Gencode/*.lean)
 
@@ -242,6 +244,31 @@ theorem read_never_faults_hyps :
     A.dna.K = 4 ∧ A.rna.K = 4 ∧ A.dna.inmap.length = 128 ∧ A.rna.inmap.length = 128 ∧ A.amino.inmap.length = 128 ∧
     ∀ t ∈ T.tables, t.basic.length = 64 ∧ t.init.length = 64 := by decide +kernel
 
+/-- WHAT `esl_gencode_Read` ACCEPTS IS A GENETIC-CODE TABLE — for ANY bytes of the file (valid, damaged, binary) and whatever
+    the new object was initialised with: if the answer is `eslOK` then both arrays have 64 entries, EVERY one of the 64 codons
+    has been assigned by a column of the file (nothing of the initial table 1 survives) to one of the 20 amino acids or the
+    stop code (`Kp − 2` = `*`), every initiator flag is 0 or 1, the id is −1 and the description empty. (That all 20 amino
+    acids and a stop occur among the 64 entries is the code's own final test, modelled in `read` and monitored on every
+    accepted file.) -/
+theorem read_ok_is_code (nt aa : Alphabet) (init : Gencode) (hi : CodeOK init) (buf : List Nat) (g : Gencode)
+    (h : read nt aa init buf = some g) :
+    CodeOK g ∧ g.translTable = -1 ∧ g.desc = "" ∧
+    ∀ c, c < 64 → (g.basic.getD c 99 < aa.K ∨ g.basic.getD c 99 + 2 = aa.Kp) ∧ g.isInit.getD c 9 ≤ 1 := by
+  obtain ⟨a, b, c, d, e⟩ := EaselModel.Gencode.read_ok_is_code nt aa init hi.1 hi.2 buf g h
+  exact ⟨⟨a, b⟩, c, d, e⟩
+
+/-- TOTALITY OF `esl_gencode_Write`: on a well-formed code object (64 entries in both arrays, every translation an index into
+    `aa_abc->sym`, a nucleotide alphabet that digitizes T (U), C, A, G to 0..3) it reads only inside its arrays and produces
+    the text, with or without the comment line; every built-in table under every initiator setting, over DNA and RNA,
+    is such an object (second part, `decide`) -/
+theorem write_never_faults (nt aa : Alphabet) (g : Gencode) (cm : Bool) (hg : CodeOK g)
+    (hb : ∀ b ∈ g.basic, b < aa.sym.length) (hn : ∀ c ∈ order, nt.inmapAt c < 4) : (write nt aa g cm).isSome = true :=
+  write_isSome nt aa g cm hg.1 hg.2 hb hn
+
+theorem write_never_faults_hyps :
+    (∀ nt ∈ [A.dna, A.rna], ∀ c ∈ order, nt.inmapAt c < 4) ∧
+    ∀ t ∈ T.tables, ∀ g ∈ settings (codeOf t), CodeOK g ∧ ∀ b ∈ g.basic, b < A.amino.sym.length := by decide +kernel
+
 /-- BOUNDS OF `esl_gencode_DecodeDigicodon` FOR EVERY C `int` (division truncating toward zero): the three reads of
     `nt_abc->sym[]` stay inside the `Kp + 1` bytes of the symbol string exactly when `0 ≤ d` and `d / 16 ≤ Kp`
     (its documented domain `0..63` is inside); every negative `d` reads before the array -/
@@ -282,6 +309,15 @@ theorem compare_spec (n1 a1 n2 a2 : Nat) (g1 g2 : Gencode) (md : Bool) (h1 : Cod
       (r = true ↔ (n1 = n2 ∧ a1 = a2 ∧ (md = true → g1.translTable = g2.translTable ∧ g1.desc = g2.desc) ∧
         g1.basic = g2.basic ∧ g1.isInit = g2.isInit)) :=
   EaselModel.Gencode.compare_spec n1 a1 n2 a2 g1 g2 md h1.1 h2.1 h1.2 h2.2
+
+/-- WINDOWS SHORTER THAN A CODON: a window of 0, 1 or 2 residues (e.g. a first window of 2) leaves the machine untouched;
+    a later window that brings ONE new residue after its 2-residue context processes exactly one codon. Together with
+    `window_split_invariant` (any split whose first window has ≥ 2 residues, later windows of any size ≥ 0 … 1, 2, 3, …):
+    windows smaller than a codon are handled like any other. -/
+theorem short_windows (nt aa : Alphabet) (g : Gencode) (cfg : Cfg) (w : Work) :
+    (∀ d : List Nat, d.length < 3 → processPiece nt aa g cfg w d = some w) ∧
+    (∀ a b c : Nat, processPiece nt aa g cfg w [a, b, c] = pieceStep nt aa g cfg w a b c) :=
+  ⟨fun d h => processPiece_short nt aa g cfg w d h, fun a b c => processPiece_one nt aa g cfg w a b c⟩
 
 /-- `esl_gencode_ProcessOrf`: a record is emitted exactly when the frame is inside an ORF of AT LEAST `minlen` residues (an ORF
     of exactly `minlen` is reported, one of `minlen − 1` is not); it is numbered `orfcount + 1` (its name is "orf<number>"),
